@@ -158,6 +158,17 @@ func verifyFunction(prog *Program, fn *ssa.Function, ctr *Contract, opts VerifyO
 			x.checkFrame(fr, es, nil)
 		}
 	}
+	// a site clause that applies to no call proves nothing: most likely its callee is misspelt
+	if ctr != nil {
+		for _, c := range ctr.Clauses {
+			if c.Kind == "site" && !x.siteMatched[c] {
+				x.unsupported("site clause %q (%s) matches no call in %s", c.Label, c.Callee, prog.relName(fn))
+			}
+			if c.Kind == "invariant" && !x.siteMatched[c] {
+				x.unsupported("loop %d invariant %q: %s has no such loop (or it is never reached)", c.Loop, c.Label, prog.relName(fn))
+			}
+		}
+	}
 	res.Covers = x.covers
 	res.Obls, res.Warnings, res.Unsupp = x.obls, x.warnings, x.unsupp
 	res.Trusted = sortedKeys(x.trusted)
